@@ -95,20 +95,28 @@ def st_request(cfgspec, knobs, base_dir, plan, record, extra=None):
     return out
 
 
-def st_request_seq(cfgspecs, knobs, base_dir):
-    "several fault-free requests in ONE process lifetime (no restart in between): in-process state carries over"
+def st_request_seq(cfgspecs, knobs, base_dir, reuse_object=False):
+    """several fault-free requests in ONE process lifetime (no restart in between): in-process state carries over.
+    With `reuse_object` the caller keeps ONE configuration object and only re-assigns its maze count between requests
+    (instead of building a new object per request) whenever consecutive configurations differ in nothing else."""
     from maze_dataset import MazeDataset
 
     flags = dict(knobs.get("request") or {})
     _knobs(knobs)
     outs = []
     dk = sdisk.SimDisk(None)
+    prev_spec = None
+    cfg = None
     with sdisk.Installed(dk, _clock(knobs)), smem.Installed(knobs.get("mem", 0)):
         for cs in cfgspecs:
             bd = base_dir
             if isinstance(cs, list):  # [cfgspec, directory]
                 cs, bd = cs
-            cfg = _ds.make_cfg(cs)
+            if reuse_object and cfg is not None and prev_spec is not None and {k: v for k, v in cs.items() if k != "n_mazes"} == {k: v for k, v in prev_spec.items() if k != "n_mazes"}:
+                cfg.n_mazes = cs["n_mazes"]
+            else:
+                cfg = _ds.make_cfg(cs)
+            prev_spec = cs
             out = _ds.outcome_of(lambda: MazeDataset.from_config(cfg, local_base_path=bd, zanj=_zanj(knobs), **flags))
             out["files"] = sorted(os.listdir(bd)) if os.path.isdir(bd) else None
             outs.append(out)
@@ -403,8 +411,10 @@ def run_shared_dir(base: Base, sc, d, log, stats):
     same_process = bool(sc.get("same_process"))
     if same_process:
         # all four requests inside one process lifetime: whatever the library keeps in memory between requests is in play
-        outs = core.stage(st_request_seq, [cfgs[w] for w in order], base.knobs, d)
+        outs = core.stage(st_request_seq, [cfgs[w] for w in order], base.knobs, d, bool(sc.get("reuse_object")))
         stats["shared_dir_same_process"] = 1
+        if sc.get("reuse_object"):
+            stats["shared_dir_one_config_object_reassigned"] = 1
     for qi, who in enumerate(order):
         out = outs[qi] if same_process else core.stage(st_request, cfgs[who], base.knobs, d, None, False)
         log.add("request", who, out["kind"], out.get("exc"))
@@ -751,6 +761,8 @@ def scenarios_for(rng: random.Random, R: dict, layout: dict, tier: str) -> list:
     sc += fv
     # the same one-field neighbours, but as *independent users of the same cache directory*
     sc += [{"kind": "shared-dir", "field": x["field"], "cfg": x["cfg"], "same_process": rng.random() < 0.5, "rounds": 3 if rng.random() < 0.2 else 1} for x in fv if x["kind"] == "foreign"]
+    # ... and a caller that keeps one configuration object and only re-assigns its maze count between requests
+    sc += [{"kind": "shared-dir", "field": "n_mazes-reassigned", "cfg": x["cfg"], "same_process": True, "reuse_object": True} for x in fv if x["kind"] == "foreign" and x["field"] == "n_mazes"]
     if R.get("applied_filters"):
         sc += [{"kind": "shared-dir", "field": "n_mazes-survivors", "cfg": None, "same_process": sp} for sp in (False, True)]
     # multi-fault histories
